@@ -25,6 +25,7 @@ def model_cases(cmds=None, max_nodes=8):
         model = draw(M.typed_models(max_nodes=max_nodes, cmds=cmds, clean=True))
         model["order2"] = list(draw(st.permutations(list(range(len(model["nodes"]))))))
         model["extra_on"] = draw(st.integers(0, 20))
+        model["history"] = draw(st.sampled_from([None, None, None, "fail_first", "twin"]))
         return model
 
     return build()
